@@ -450,4 +450,140 @@ class HashSeeds(object):
         return json.dumps(sorted((k, v) for k, v in other.items() if not k.endswith(':text')))[:300], vs, 2 * len(INPUTS) * 2
 
 
-FAMILIES = [Histories(), HashSeeds()]
+OPTION_MIB = """OPTS-MIB DEFINITIONS ::= BEGIN
+IMPORTS MODULE-IDENTITY, OBJECT-TYPE, Integer32, enterprises FROM SNMPv2-SMI;
+optsModule MODULE-IDENTITY
+    LAST-UPDATED "202001020000Z" ORGANIZATION "Org   with   gaps" CONTACT-INFO "Contact
+    on two lines" DESCRIPTION "Module
+    description"
+    REVISION "202001020000Z" DESCRIPTION "Second
+        revision"
+    REVISION "201901010000Z" DESCRIPTION "First   revision"
+    ::= { enterprises 5151 }
+optsDelay OBJECT-TYPE SYNTAX Integer32 UNITS "milli
+    seconds" MAX-ACCESS read-only STATUS current DESCRIPTION "Delay   description" REFERENCE "Some
+    reference" ::= { optsModule 1 }
+optsCount OBJECT-TYPE SYNTAX Integer32 UNITS "packets" MAX-ACCESS read-only STATUS current DESCRIPTION "Count" ::= { optsModule 2 }
+END
+"""
+
+
+def _identity(symbol, text):
+    return text
+
+
+def _shout(symbol, text):
+    return text.upper()
+
+
+def _drop(symbol, text):
+    return ''
+
+
+OPTION_SETS = [('plain', {}), ('genTexts', {'genTexts': True}), ('identity-filter', {'textFilter': _identity}),
+               ('shouting-filter', {'textFilter': _shout, 'genTexts': True}), ('dropping-filter', {'textFilter': _drop}),
+               ('genTexts-off', {'genTexts': False}), ('stock-template-copy', {'dstTemplate': 'COPY'}),
+               ('marker-template', {'dstTemplate': 'MARKER'})]
+
+
+class OptionHistories(object):
+    name = 'option-histories'
+    prefix = 'C12'
+    describe = ('ONE MibCompiler compiles the same module (UNITS, REVISION and DESCRIPTION texts with line breaks and runs of blanks) '
+                'again and again with options drawn from 8 settings (nothing, genTexts on / off, identity / upper-casing / dropping '
+                'text filter, a copy of the stock template in another directory, a one-line marker template): every sequence of '
+                'length <=2 (3); each output equals what a fresh compiler gives for the same options; both back ends')
+
+    def blocks(self, tier):
+        return [{'backend': b, 'first': i} for b in ('json', 'pysnmp') for i in range(len(OPTION_SETS))]
+
+    def cases(self, block, tier):
+        n = 3 if tier == 'thorough' else 2
+        yield {'backend': block['backend'], 'seq': [block['first']]}
+        for ln in range(2, n + 1):
+            for rest in itertools.product(range(len(OPTION_SETS)), repeat=ln - 1):
+                yield {'backend': block['backend'], 'seq': [block['first']] + list(rest)}
+
+    _tmpl = {}
+
+    def templates(self, backend):
+        import atexit
+        import shutil
+        import tempfile
+        key = (backend, os.getpid())
+        if key not in self._tmpl:
+            mod = __import__('pysmi.codegen.%s' % ('jsondoc' if backend == 'json' else 'pysnmp'), fromlist=['x'])
+            cls = mod.JsonCodeGen if backend == 'json' else mod.PySnmpCodeGen
+            d = tempfile.mkdtemp(prefix='mcopt', dir=os.environ.get('VERIF_TMP') or ('/dev/shm' if os.path.isdir('/dev/shm') else None))
+            copy = os.path.join(d, 'site-copy.j2')
+            shutil.copy(os.path.join(os.path.dirname(mod.__file__), 'templates', cls.TEMPLATE_NAME), copy)
+            marker = os.path.join(d, 'marker.j2')
+            with open(marker, 'w') as f:
+                f.write('MARKER {{ mib["meta"]["module"] if "meta" in mib else "?" }}\n')
+            pid = os.getpid()
+            atexit.register(lambda: os.getpid() == pid and shutil.rmtree(d, ignore_errors=True))
+            self._tmpl[key] = {'COPY': copy, 'MARKER': marker}
+        return self._tmpl[key]
+
+    def compile_with(self, comp, written, backend, opts):
+        opts = dict(opts)
+        if opts.get('dstTemplate'):
+            opts['dstTemplate'] = self.templates(backend)[opts['dstTemplate']]
+        del written[:]
+        try:
+            res = comp.compile('OPTS-MIB', rebuild=True, **opts)
+        except Exception as exc:
+            return ('escaped', type(exc).__name__, str(exc)[:80])
+        st = res.get('OPTS-MIB')
+        return (str(st), str(getattr(st, 'error', ''))[:120] if st == 'failed' else '', tuple(sorted(written)))
+
+    def make(self, backend, written):
+        class W(object):
+            def setOptions(self, **kw):
+                return self
+
+            def putData(self, name, data, comments=(), dryRun=False):
+                written.append((name, mask(data)))
+
+            def getData(self, name):
+                return ''
+        comp = env.MibCompiler(env.fresh_parser('smiV2'), env.make_codegen(backend), W())
+        texts = env.base_texts()
+        texts['OPTS-MIB'] = OPTION_MIB
+        comp.addSources(env.DictReader(texts))
+        comp.addSearchers(env.StubSearcher(*env.BASE_NAMES))
+        return comp
+
+    _fresh = {}
+
+    def fresh(self, backend, i):
+        key = (backend, i, os.getpid())
+        if key not in self._fresh:
+            w = []
+            self._fresh[key] = self.compile_with(self.make(backend, w), w, backend, OPTION_SETS[i][1])
+        return self._fresh[key]
+
+    def run_case(self, case):
+        backend = case['backend']
+        w = []
+        comp = self.make(backend, w)
+        vs = []
+        got = None
+        for pos, i in enumerate(case['seq']):
+            got = self.compile_with(comp, w, backend, OPTION_SETS[i][1])
+            want = self.fresh(backend, i)
+            if got != want:
+                prev = OPTION_SETS[case['seq'][pos - 1]][0] if pos else 'nothing'
+                vs.append(('%s|option-history|%s|%s-after-%s' % (self.prefix, backend, OPTION_SETS[i][0], prev),
+                           'sequence %r position %d\non the used compiler: %s\non a fresh compiler:  %s' % (
+                               [OPTION_SETS[j][0] for j in case['seq']], pos, _short(got), _short(want))))
+                break
+        return repr(got)[:200], vs, len(case['seq'])
+
+
+def _short(obs):
+    s = repr(obs)
+    return s if len(s) < 1500 else s[:700] + ' ... ' + s[-700:]
+
+
+FAMILIES = [Histories(), HashSeeds(), OptionHistories()]
